@@ -147,9 +147,8 @@ def h_misc(w):
     mhp.MatMul(A, B)
     mhp.SafeDot(A, B)
     th = w.angle('th', w.const('1e-3'), 3)
-    u = w.unit3('u')
-    ref = w.array([[w.real('p%d' % i, -2, 2)] for i in range(3)] + [[th * u[i]] for i in range(3)])
-    rel = w.array([[w.real('q%d' % i, -2, 2)] for i in range(3)] + [[0], [0], [w.const('0.5')]])
+    ref = w.array([[w.real('p%d' % i, -2, 2)] for i in range(3)] + [[0], [0], [th]])
+    rel = w.array([[w.real('q%d' % i, -2, 2)] for i in range(3)] + [[0], [0], [0]])
     mhp.LocalToGlobal(ref, rel)
     mhp.GlobalToLocal(ref, rel)
 
